@@ -27,6 +27,7 @@ def gen_ops(rng, n, malformed):
     live = []
     removed = []
     marked = set()
+    left = {}
     nw = 0
     for _ in range(n):
         c = rng.random()
@@ -47,14 +48,20 @@ def gen_ops(rng, n, malformed):
         elif c < 0.4:
             ops.append(['i', i])
         elif c < 0.55:
-            if i in marked or pool is removed:
+            # any number of marking rounds per message: the indexes of a round are positions in the recipient list as it stands after
+            # the rounds before it (what Queue._handle_partial_relay hands over). (Until the fourth session a message got one round at
+            # most: the model mutant `store-rounds-prepended` survived the campaign — tools/model_mutants.py.)
+            nr = left.get(i)
+            if nr is None:
+                nr = left[i] = next(o[2] for o in ops if o[0] == 'w' and o[1] == i)
+            if pool is removed or nr == 0:
                 ops.append(['g', i])
             else:
-                nr = next(o[2] for o in ops if o[0] == 'w' and o[1] == i)
-                idxs = sorted(rng.sample(range(nr), rng.randint(0, nr)))
+                idxs = sorted(rng.sample(range(nr), rng.randint(0 if i not in marked else 1, max(1, nr - 1) if rng.random() < 0.7 else nr)))
                 if rng.random() < 0.3:
                     rng.shuffle(idxs)
                 ops.append(['d', i, idxs, rng.choice(['set', 'list'])])
+                left[i] = nr - len(idxs)
                 marked.add(i)
         elif c < 0.8:
             ops.append(['g', i])
